@@ -139,7 +139,11 @@ impl OptCfg {
                 }
                 BuilderCall::CloneIt => b = b.clone(),
                 BuilderCall::Build => {
-                    let _ = b.build();
+                    // (a throw-away optimiser for whatever the builder holds at this point; if
+                    // building it panics, that is a matter for the run that asks for such settings)
+                    let _ = catch_unwind(AssertUnwindSafe(|| {
+                        let _ = b.build();
+                    }));
                 }
             }
         }
